@@ -396,7 +396,7 @@ func checkFilterInstalled(p *Prog, r *Report) {
 		name := FuncName(fn)
 		pos := p.Pos(fn.Pos())
 		k := 0
-		for _, s := range Paths(fn).Segs {
+		for _, s := range PathsInl(fn).Segs {
 			for _, sc := range calls {
 				if !s.Has(sc) {
 					continue
@@ -514,7 +514,7 @@ func checkRecordProvenance(p *Prog, r *Report) {
 		proto := lastElem(proc.Pkg.Pkg.Path())
 		name := FuncName(proc)
 		pos := p.Pos(proc.Pos())
-		fp := Paths(proc)
+		fp := PathsInl(proc)
 		okN, whyN := true, ""
 		okP, whyP := true, ""
 		okG, whyG := true, ""
